@@ -273,27 +273,24 @@ def time_rule(model, res):
     return nfun, tr.reads
 
 
+REF_STAT_COLUMNS = '''
+def _add_statistic_column(df, pool_info):
+    df["close"] = df["closeTick"].map(lambda t: tick_to_base_unit_price(int(t), pool_info.token0.decimal, pool_info.token1.decimal, pool_info.is_token0_quote))
+    df["price"] = df["close"].shift(1)
+    df.loc[df.index[0], "price"] = tick_to_base_unit_price(int(df["openTick"].iloc[0]), pool_info.token0.decimal, pool_info.token1.decimal, pool_info.is_token0_quote)
+    df["volume0"] = df["inAmount0"].map(lambda a: Decimal(a) / 10**pool_info.token0.decimal)
+    df["volume1"] = df["inAmount1"].map(lambda a: Decimal(a) / 10**pool_info.token1.decimal)
+'''
+
+
 def shift_rule(model, res):
-    f = model.func("uniswap.helper._add_statistic_column")
-    found = None
-    for n in ast.walk(f.node):
-        if isinstance(n, ast.Assign) and ast.unparse(n.targets[0]) in ('df["price"]', "df['price']"):
-            found = n
-            break
-    if found is None:
-        raise AnalysisError("C02: price column assignment not found in _add_statistic_column")
-    v = found.value
-    ok = False
-    why = ast.unparse(v)
-    if isinstance(v, ast.Call) and isinstance(v.func, ast.Attribute) and v.func.attr == "shift" \
-            and ast.unparse(v.func.value) in ('df["close"]', "df['close']") and len(v.args) == 1 \
-            and isinstance(v.args[0], ast.Constant) and isinstance(v.args[0].value, int) and v.args[0].value >= 1 and not v.keywords:
-        ok = True
-    res.ob("R-TIME", "bar price = close of an EARLIER bar (close.shift(n), n >= 1)", f.loc(found), ok=ok, detail=why)
-    if not ok:
-        res.find("R-TIME", f.qualname, f"price column `{why[:80]}`", f.loc(found),
-                 f"the per-bar price is `{why}`; it must be the previous bar's close (`df['close'].shift(n)` with n >= 1), otherwise "
-                 f"bar k sees its own or a later close")
+    """The prepared columns equal the reference (ledger identity of the stores into the frame): close = price of the bar's
+    close tick; the bar PRICE is the previous bar's close (shift by one bar back; the first bar uses its own open tick);
+    volumes are the in-amounts in token units."""
+    from ..rules.formula import effects_check
+    effects_check(res, model, "uniswap.helper._add_statistic_column", REF_STAT_COLUMNS,
+                  "bar price = close of the PREVIOUS bar (close.shift(1)); first bar from its open tick; per-token volumes",
+                  [], opaque=["tick_to_base_unit_price"], rule="R-TIME")
 
 
 # ------------------------------------------------------------------------------------------ R-TIME (data preparation)
